@@ -384,7 +384,8 @@ class RelativeSequence(AbstractSequence):
         """
         had_to_shift = False
 
-        for msg in self._messages:
+        # A message object can occur several times (e.g. after concatenating a sequence with itself)
+        for msg in {id(msg): msg for msg in self._messages}.values():
             if msg.message_type == MessageType.NOTE_ON or msg.message_type == MessageType.NOTE_OFF:
                 msg.note += transpose_by
                 while msg.note < NOTE_LOWER_BOUND:
